@@ -12,9 +12,15 @@ Model: `Tfl.Kfl` (`Model/Kfl.lean`), one unit and one example; units are indepen
   `max(Π_d max|k_d|, 1) ≤ r^dims`); `RootsOk` bundles it with the shapes `verify_hyperparameters`
   and `build` guarantee (one column of `lattice_sizes` vertices per entry of `monotonicities`, one
   factor per term). The driver evaluates `rootOk` on the float the real code computed.
-* Histories: `ValidRun` = any sequence of `kernel.assign(kernel.constraint(kernel))` /
+* Histories, part 1 (T2, T4): `ValidRun` = any sequence of `kernel.assign(kernel.constraint(kernel))` /
   `scale.assign(scale.constraint(scale))` from ANY starting state (i.e. after arbitrary raw updates
-  of both variables, any signs, zeros).
+  of both variables, any signs, zeros) — a PURE constraint tail containing both calls
+  (`validRun_iff_pure_constraint_run`).
+* Histories, part 2 (T5, T6, last section): ALL runs, raw updates and constraint calls interleaved in any
+  way (`RunValid`). There the property as quantified is false (F-C07-c, `property_all_orders_false`): the
+  kernel projection orients every term by `sign(scale_t)` when it runs, and a later raw scale update to the
+  opposite sign leaves that term decreasing. What holds, exactly (`sign_condition_tight`), is
+  `layer_after_any_run`; the schedules Keras uses are covered (`keras_training_monotone_and_bounded`).
 * `hlh` is `output_min ≤ output_max` (`verify_hyperparameters` rejects `min ≥ max`).
 -/
 namespace Tfl.C07
@@ -97,7 +103,8 @@ theorem output_bounded (L : Nat) (hL : 1 ≤ L) (clipI : Bool) (lo hi : Option R
     simp only [fixedBias]
     exact ⟨fun l' e => (by cases e; exact this.1), fun h' e => (by cases e; exact this.2)⟩
 
-/-- T4 (the property): for EVERY configuration — any monotonicity subset including none, any bound
+/-- T4 (the property, for runs ending in a pure constraint tail that contains both calls; all other
+orders: T6 `layer_after_any_run`): for EVERY configuration — any monotonicity subset including none, any bound
 mode, any `lattice_sizes ≥ 1`, dims, number of terms, `clip_inputs` — and every finite kernel and
 scale, after the layer's constraint objects have both been applied (any order, any repetition,
 or `finalize_constraints()`), the output is non-decreasing in every monotone input and lies in
@@ -153,6 +160,300 @@ example : (runOps [true, false] (some 0) (some 1) exState [.consS, .consK [3, 4]
 /-- and the conclusion is not trivial: the output really moves (463/1152 → 511/1152) inside [0,1] -/
 example : eval 3 false [[[1/3, 5/6, 5/6], [0, 2/3, 0]], [[5/8, 5/8, 5/8], [0, 5/4, 0]]] [1/2, -1/2] (1/2) [1/2, 1] = 463/1152
     ∧ eval 3 false [[[1/3, 5/6, 5/6], [0, 2/3, 0]], [[5/8, 5/8, 5/8], [0, 5/4, 0]]] [1/2, -1/2] (1/2) [3/2, 1] = 511/1152 := by
+  decide +kernel
+
+/-! ## ALL orders of raw updates and constraint calls (audit row 3)
+
+`ValidRun` (used by T2/T4 above) allows only PURE constraint runs: `validRun_iff_pure_constraint_run`.
+The property quantifies over "all orders in which kernel and scale are updated/constrained" and
+"signs that change between updates". Below every run is allowed (`RunValid`: raw updates unrestricted,
+every kernel-constraint call sees well-shaped data and a root factor with `rootOk`), and the bookkeeping
+`Track` (Model/Kfl.lean) says what holds at its end:
+
+* bounds: each constraint ran after the last raw update of ITS variable (`boundCovered`) — sign flips are
+  irrelevant;
+* monotonicity: a kernel constraint ran after the last raw kernel update, and since it READ the scale `r`
+  no term went to the opposite non-zero sign (`monoCovered`, `signOk1 r_t f_t`: `r_t = 0` — that kernel
+  constraint zeroed the term's kernel —, or `f_t = 0`, or `sign f_t = sign r_t`).
+
+`signOk1` is tight (`sign_condition_tight`): for every other sign pair there is a kernel on which the output
+DEcreases. Hence the property as quantified ("each constraint applied after its variable's last update",
+any order) is FALSE for the real code — finding F-C07-c, `property_all_orders_false` — and true for the
+schedules Keras uses (the layer creates `scale` before `kernel`, so the kernel constraint is the last call
+of every optimizer step): `keras_step_establishes_premises`, `keras_training_monotone_and_bounded`. -/
+
+/-- (a) EXACTLY which runs `ValidRun` — hence `constraints_any_order_establish_premises`,
+`premises_persist`, T4 — covers: runs without any raw update (from an arbitrary state). -/
+theorem validRun_iff_pure_constraint_run (L : Nat) (ms : List Bool) (lo hi : Option Rat) (st : State)
+    (ops : List Op) :
+    ValidRun L ms lo hi st ops ↔ (∀ op ∈ ops, Op.isCons op = true) ∧ RunValid L ms lo hi st ops :=
+  validRun_iff L ms lo hi ops st
+
+/-- T5: premises after ANY run (raw updates and constraint calls interleaved in any way, any signs,
+sign changes anywhere), from any starting state, in terms of the bookkeeping flags. -/
+theorem premises_after_any_run (L : Nat) (ms : List Bool) (lo hi : Option Rat)
+    (hlh : ∀ l h, lo = some l → hi = some h → l ≤ h) (st : State) (ops : List Op)
+    (hv : RunValid L ms lo hi st ops) :
+    (monoCovered (trackOf ms lo hi st ops) (runOps ms lo hi st ops).scale = true →
+      KOk L ms lo hi (runOps ms lo hi st ops)) ∧
+    (boundCovered (trackOf ms lo hi st ops) = true →
+      BoundOkK lo hi (runOps ms lo hi st ops).K ∧ SOk lo hi (runOps ms lo hi st ops).scale) := by
+  have h := runTracked_inv L ms lo hi hlh ops st Track.init hv (trackInv_init L ms lo hi st)
+  rw [runTracked_fst] at h
+  exact ⟨fun hc => trackInv_kOk L ms lo hi _ _ h hc, fun hc => trackInv_bound L ms lo hi _ _ h hc⟩
+
+/-- T5 in readable form. Monotone side: the LAST kernel-constraint call (`consK rs`, after `pre`) is not
+followed by a raw kernel update, and no term's scale has gone from the value that call read to the opposite
+non-zero sign. Bound side: additionally some scale-constraint call is not followed by a raw scale update. -/
+theorem premises_after_last_constraints (L : Nat) (ms : List Bool) (lo hi : Option Rat)
+    (hlh : ∀ l h, lo = some l → hi = some h → l ≤ h) (st : State) (pre post : List Op) (rs : List Rat)
+    (hv : RunValid L ms lo hi st (pre ++ .consK rs :: post))
+    (hpost : ∀ op ∈ post, Op.touchesKRef op = false) :
+    let fin := runOps ms lo hi st (pre ++ .consK rs :: post)
+    (signsOk (runOps ms lo hi st pre).scale fin.scale = true → KOk L ms lo hi fin) ∧
+    (∀ pre' post', pre ++ .consK rs :: post = pre' ++ .consS :: post' →
+      (∀ op ∈ post', Op.isAssignS op = false) → BoundOkK lo hi fin.K ∧ SOk lo hi fin.scale) := by
+  intro fin
+  obtain ⟨h1, h2⟩ := premises_after_any_run L ms lo hi hlh st _ hv
+  have hr := trackOf_ref_of_last_consK ms lo hi st pre post rs hpost
+  refine ⟨fun hs => h1 (by simp only [monoCovered, hr]; exact hs), fun pre' post' e hp' => h2 ?_⟩
+  have hf := trackOf_sFresh_of_last_consS ms lo hi st pre' post' hp'
+  rw [← e] at hf
+  simp [boundCovered, hr, hf]
+
+/-- T6 (the property, for the runs it is true for): after ANY run, at every point the property speaks
+about, (i) the output is non-decreasing in every monotone input if `monoCovered`; (ii) it lies in
+`[output_min, output_max]` if `boundCovered` — whatever the signs did in between. -/
+theorem layer_after_any_run (L : Nat) (hL : 1 ≤ L) (clipI : Bool)
+    (ms : List Bool) (lo hi : Option Rat) (hlh : ∀ l h, lo = some l → hi = some h → l ≤ h)
+    (st : State) (ops : List Op) (hv : RunValid L ms lo hi st ops)
+    (xs : List Rat) (hx : ∀ x ∈ xs, InR L clipI x) :
+    let fin := runOps ms lo hi st ops
+    let tr := trackOf ms lo hi st ops
+    (monoCovered tr fin.scale = true → ∀ d y bias, ms.getD d false = true → InR L clipI y → getR xs d ≤ y →
+      eval L clipI fin.K fin.scale bias xs ≤ eval L clipI fin.K fin.scale bias (xs.set d y)) ∧
+    (boundCovered tr = true → (∀ kt ∈ fin.K, xs.length = kt.length) →
+      (∀ l, lo = some l → l ≤ eval L clipI fin.K fin.scale (fixedBias lo hi) xs) ∧
+      (∀ h, hi = some h → eval L clipI fin.K fin.scale (fixedBias lo hi) xs ≤ h)) := by
+  intro fin tr
+  obtain ⟨h1, h2⟩ := premises_after_any_run L ms lo hi hlh st ops hv
+  refine ⟨fun hc d y bias hm hy hxy => ?_, fun hc hdims => ?_⟩
+  · exact output_monotone L hL clipI ms d xs y hm hx hy hxy fin.scale fin.K bias ((h1 hc).1 (any_of_getD ms d hm))
+  · exact output_bounded L hL clipI lo hi hlh xs hx fin.scale fin.K hdims (h2 hc).1 (h2 hc).2
+
+/-! ### (c) the schedules Keras uses -/
+
+theorem kerasStepPerVar_run (ms : List Bool) (lo hi : Option Rat) (st : State) (s : List Rat)
+    (K : List (List (List Rat))) (rs : List Rat) :
+    runOps ms lo hi st (kerasStepPerVar s K rs) =
+      { K := kernelConstraint ms lo hi (scaleConstraint lo hi s) rs K, scale := scaleConstraint lo hi s } := rfl
+
+/-- both optimizer families produce the same state -/
+theorem kerasStepBatch_run (ms : List Bool) (lo hi : Option Rat) (st : State) (s : List Rat)
+    (K : List (List (List Rat))) (rs : List Rat) :
+    runOps ms lo hi st (kerasStepBatch s K rs) = runOps ms lo hi st (kerasStepPerVar s K rs) := rfl
+
+/-- (c) ONE complete optimizer step of Keras — raw update `s` of the scale, raw update `K` of the kernel,
+constraints in the order of `trainable_variables` (scale, then kernel), either per variable (legacy
+optimizers) or after all updates (current optimizers) — establishes the premises of T1 and T3 from ANY
+prior state (`st` arbitrary: any earlier history, any signs before, any sign flip in `s`). -/
+theorem keras_step_establishes_premises (L : Nat) (ms : List Bool) (lo hi : Option Rat)
+    (hlh : ∀ l h, lo = some l → hi = some h → l ≤ h) (st : State) (s : List Rat)
+    (K : List (List (List Rat))) (rs : List Rat)
+    (hv : RootsOk L ms lo hi (scaleConstraint lo hi s) rs K) :
+    (KOk L ms lo hi (runOps ms lo hi st (kerasStepPerVar s K rs)) ∧
+      SOk lo hi (runOps ms lo hi st (kerasStepPerVar s K rs)).scale) ∧
+    (KOk L ms lo hi (runOps ms lo hi st (kerasStepBatch s K rs)) ∧
+      SOk lo hi (runOps ms lo hi st (kerasStepBatch s K rs)).scale) := by
+  rw [kerasStepBatch_run, kerasStepPerVar_run]
+  have h := kernelConstraint_ok L ms lo hi { K := K, scale := scaleConstraint lo hi s } rs hv
+  exact ⟨⟨h, scaleConstraint_sOk lo hi hlh s⟩, ⟨h, scaleConstraint_sOk lo hi hlh s⟩⟩
+
+/-- a training history: the raw updates `(s, K)` of every step and the root factors its kernel constraint
+computes; `sched` is `kerasStepPerVar` or `kerasStepBatch` -/
+def kerasRun (sched : List Rat → List (List (List Rat)) → List Rat → List Op) :
+    List (List Rat × List (List (List Rat)) × List Rat) → List Op
+  | [] => []
+  | (s, K, rs) :: steps => sched s K rs ++ kerasRun sched steps
+
+/-- (c) training: for EVERY sequence of optimizer steps (any raw updates, every sign pattern, sign flips
+between steps), from any starting state, after EVERY complete step the layer output is non-decreasing in
+every monotone input and within the bounds, at every point the property speaks about. Same for the
+current-optimizer schedule `kerasStepBatch` (`kerasStepBatch_run`). -/
+theorem keras_training_monotone_and_bounded (L : Nat) (hL : 1 ≤ L) (clipI : Bool)
+    (ms : List Bool) (lo hi : Option Rat) (hlh : ∀ l h, lo = some l → hi = some h → l ≤ h)
+    (sched : List Rat → List (List (List Rat)) → List Rat → List Op)
+    (hsched : sched = kerasStepPerVar ∨ sched = kerasStepBatch)
+    (st : State) (done : List (List Rat × List (List (List Rat)) × List Rat))
+    (s : List Rat) (K : List (List (List Rat))) (rs : List Rat)
+    (hv : RunValid L ms lo hi st (kerasRun sched (done ++ [(s, K, rs)])))
+    (xs : List Rat) (hx : ∀ x ∈ xs, InR L clipI x) :
+    let fin := runOps ms lo hi st (kerasRun sched (done ++ [(s, K, rs)]))
+    (∀ d y bias, ms.getD d false = true → InR L clipI y → getR xs d ≤ y →
+      eval L clipI fin.K fin.scale bias xs ≤ eval L clipI fin.K fin.scale bias (xs.set d y)) ∧
+    ((∀ kt ∈ fin.K, xs.length = kt.length) →
+      (∀ l, lo = some l → l ≤ eval L clipI fin.K fin.scale (fixedBias lo hi) xs) ∧
+      (∀ h, hi = some h → eval L clipI fin.K fin.scale (fixedBias lo hi) xs ≤ h)) := by
+  intro fin
+  have happ : ∀ a b, kerasRun sched (a ++ b) = kerasRun sched a ++ kerasRun sched b := by
+    intro a b
+    induction a with
+    | nil => rfl
+    | cons p a ih => obtain ⟨s', K', rs'⟩ := p; simp only [List.cons_append, kerasRun, ih, List.append_assoc]
+  have hlast : kerasRun sched [(s, K, rs)] = sched s K rs := by simp [kerasRun]
+  have hfin : fin = runOps ms lo hi (runOps ms lo hi st (kerasRun sched done)) (sched s K rs) := by
+    show runOps ms lo hi st (kerasRun sched (done ++ [(s, K, rs)])) = _
+    rw [happ, hlast, runOps_append]
+  rw [happ, hlast, runValid_append] at hv
+  have hroots : RootsOk L ms lo hi (scaleConstraint lo hi s) rs K := by
+    rcases hsched with e | e <;> subst e
+    · exact hv.2.1
+    · exact hv.2.1
+  obtain ⟨h1, h2⟩ := keras_step_establishes_premises L ms lo hi hlh
+    (runOps ms lo hi st (kerasRun sched done)) s K rs hroots
+  have hK : KOk L ms lo hi fin ∧ SOk lo hi fin.scale := by
+    rw [hfin]; rcases hsched with e | e <;> subst e
+    · exact h1
+    · exact h2
+  refine ⟨fun d y bias hm hy hxy => ?_, fun hdims => ?_⟩
+  · exact output_monotone L hL clipI ms d xs y hm hx hy hxy fin.scale fin.K bias (hK.1.1 (any_of_getD ms d hm))
+  · exact output_bounded L hL clipI lo hi hlh xs hx fin.scale fin.K hdims hK.1.2 hK.2
+
+/-! ### the opposite per-variable order (kernel first) -/
+
+/-- bounds survive the kernel-first order whatever the signs do; monotonicity needs `signsOk` between the
+scale the kernel constraint read (`st.scale`, the previous step's) and the new constrained scale. -/
+theorem kernel_first_step_premises (L : Nat) (ms : List Bool) (lo hi : Option Rat)
+    (hlh : ∀ l h, lo = some l → hi = some h → l ≤ h) (st : State) (s : List Rat)
+    (K : List (List (List Rat))) (rs : List Rat) (hv : RootsOk L ms lo hi st.scale rs K) :
+    let fin := runOps ms lo hi st (kernelFirstStep s K rs)
+    (BoundOkK lo hi fin.K ∧ SOk lo hi fin.scale) ∧
+    (signsOk st.scale (scaleConstraint lo hi s) = true → KOk L ms lo hi fin) := by
+  intro fin
+  have hrv : RunValid L ms lo hi st (kernelFirstStep s K rs) := ⟨hv, trivial⟩
+  obtain ⟨h1, h2⟩ := premises_after_any_run L ms lo hi hlh st _ hrv
+  exact ⟨h2 rfl, fun hs => h1 hs⟩
+
+/-- (b) F-C07-c, COUNTER-WITNESS (model = real code, reproduced by the harness): `lattice_sizes = 2`, one
+monotone input, one term, bounds [0, 1]; state after an earlier step: kernel `[1/4, 1]`, scale `1/2`. One
+step in kernel-first order — `kernel.assign(K); kernel.assign(constraint(kernel)); scale.assign(-1/2);
+scale.assign(constraint(scale))` — is a valid run in which each constraint ran after the last raw update
+of its variable (`boundCovered`), the bookkeeping says the monotone side is NOT covered, and indeed the
+output DEcreases along the increasing input: `f(0) = 3/8 > f(1) = 0`. Both values are inside [0, 1]. -/
+theorem kernel_first_sign_flip_counter_witness :
+    let st : State := { K := [[[1/4, 1]]], scale := [1/2] }
+    let ops := kernelFirstStep [-1/2] [[[1/4, 1]]] [1]
+    let fin := runOps [true] (some 0) (some 1) st ops
+    RunValid 2 [true] (some 0) (some 1) st ops ∧
+    boundCovered (trackOf [true] (some 0) (some 1) st ops) = true ∧
+    monoCovered (trackOf [true] (some 0) (some 1) st ops) fin.scale = false ∧
+    eval 2 false fin.K fin.scale (fixedBias (some 0) (some 1)) [0] = 3/8 ∧
+    eval 2 false fin.K fin.scale (fixedBias (some 0) (some 1)) [1] = 0 := by
+  refine ⟨⟨⟨⟨⟨rfl, ?_⟩, fun _ _ => ?_⟩, trivial⟩, trivial⟩, ?_, ?_, ?_, ?_⟩
+  · intro k hk; simp only [List.mem_cons, List.not_mem_nil, or_false] at hk; subst hk; rfl
+  · decide +kernel
+  · decide +kernel
+  · decide +kernel
+  · decide +kernel
+  · decide +kernel
+
+/-- the same in the other bound modes: no bounds (`-1/4 > -1`) and max-only (`3/4 > 0`) -/
+theorem kernel_first_sign_flip_counter_witness_other_modes :
+    (let fin := runOps [true] none none { K := [[[1/4, 1]]], scale := [1] } (kernelFirstStep [-1] [[[1/4, 1]]] [1])
+     eval 2 false fin.K fin.scale 0 [0] = -1/4 ∧ eval 2 false fin.K fin.scale 0 [1] = -1) ∧
+    (let fin := runOps [true] none (some 1) { K := [[[1/4, 1]]], scale := [1] } (kernelFirstStep [-1] [[[1/4, 1]]] [1])
+     eval 2 false fin.K fin.scale (fixedBias none (some 1)) [0] = 3/4 ∧
+     eval 2 false fin.K fin.scale (fixedBias none (some 1)) [1] = 0) := by
+  decide +kernel
+
+/-- the property with its quantifier "all orders in which kernel and scale are updated/constrained":
+whenever each constraint has been applied after the last raw update of its variable, the output is
+monotone (bounds: see `layer_after_any_run`, which proves them for exactly these runs). -/
+def PropertyAllOrders : Prop :=
+  ∀ (L : Nat) (clipI : Bool) (ms : List Bool) (lo hi : Option Rat) (st : State) (ops : List Op)
+    (xs : List Rat) (d : Nat) (y : Rat),
+    1 ≤ L → (∀ l h, lo = some l → hi = some h → l ≤ h) → RunValid L ms lo hi st ops →
+    boundCovered (trackOf ms lo hi st ops) = true → (∀ x ∈ xs, InR L clipI x) →
+    ms.getD d false = true → InR L clipI y → getR xs d ≤ y →
+    eval L clipI (runOps ms lo hi st ops).K (runOps ms lo hi st ops).scale (fixedBias lo hi) xs ≤
+      eval L clipI (runOps ms lo hi st ops).K (runOps ms lo hi st ops).scale (fixedBias lo hi) (xs.set d y)
+
+/-- F-C07-c: the property as quantified is FALSE for the code (the partial statements that hold are
+`layer_after_any_run` and `keras_training_monotone_and_bounded`). -/
+theorem property_all_orders_false : ¬ PropertyAllOrders := by
+  intro h
+  obtain ⟨hv, hb, _, e0, e1⟩ := kernel_first_sign_flip_counter_witness
+  have := h 2 false [true] (some 0) (some 1) { K := [[[1/4, 1]]], scale := [1/2] }
+    (kernelFirstStep [-1/2] [[[1/4, 1]]] [1]) [0] 0 1 (by norm_num)
+    (fun l h' e1 e2 => by cases e1; cases e2; norm_num) hv hb
+    (fun x hx => by simp only [List.mem_cons, List.not_mem_nil, or_false] at hx; subst hx; right; norm_num)
+    rfl (by right; norm_num) (by simp [getR])
+  have e1' : eval 2 false
+      (runOps [true] (some 0) (some 1) { K := [[[1/4, 1]]], scale := [1/2] } (kernelFirstStep [-1/2] [[[1/4, 1]]] [1])).K
+      (runOps [true] (some 0) (some 1) { K := [[[1/4, 1]]], scale := [1/2] } (kernelFirstStep [-1/2] [[[1/4, 1]]] [1])).scale
+      (fixedBias (some 0) (some 1)) ([0].set 0 1) = 0 := e1
+  rw [e0, e1'] at this
+  norm_num at this
+
+/-- `signOk1` is TIGHT: for every pair (scale read by the kernel constraint, scale now) it rejects there is
+a kernel (one monotone input, no bounds) on which the output strictly DEcreases from `x = 0` to `x = 1`
+after `kernel.assign(K); constrain kernel; scale.assign(f)`. -/
+theorem sign_condition_tight (r f : Rat) (h : signOk1 r f = false) :
+    ∃ K : List (List (List Rat)),
+      let fin := runOps [true] none none { K := [], scale := [r] } [.assignK K, .consK [1], .assignS [f]]
+      eval 2 false fin.K fin.scale 0 [1] < eval 2 false fin.K fin.scale 0 [0] := by
+  simp only [signOk1, Bool.or_eq_false_iff, decide_eq_false_iff_not] at h
+  obtain ⟨⟨hr, hf⟩, hs⟩ := h
+  rcases sgn_cases r with ⟨hr', er⟩ | ⟨hr', er⟩ | ⟨hr', _⟩
+  · -- r > 0, hence f < 0
+    have hf' : f < 0 := by
+      rcases sgn_cases f with ⟨_, ef⟩ | ⟨h', _⟩ | ⟨h', _⟩
+      · exact absurd (ef.trans er.symm) hs
+      · exact h'
+      · exact absurd h' hf
+    refine ⟨[[[0, 1]]], ?_⟩
+    simp only [runOps, List.foldl, step, kernelConstraint, finalizeWeight, finalizeWeightTerm, monoStage,
+      projectMono, projectDim, clipNonneg, monoProj1, half, cummax, cummaxFrom, cumminBack, er,
+      List.any, id, Bool.or_false, if_true, List.map, List.zipWith, Option.isSome,
+      Bool.false_eq_true, if_false, eval, scaled, termProd, termFactors, interp1, interpWeights, clipIn,
+      dot, rprod, rsum, List.length]
+    norm_num [rprod, rsum, dot]
+    linarith
+  · -- r < 0, hence f > 0
+    have hf' : 0 < f := by
+      rcases sgn_cases f with ⟨h', _⟩ | ⟨_, ef⟩ | ⟨h', _⟩
+      · exact h'
+      · exact absurd (ef.trans er.symm) hs
+      · exact absurd h' hf
+    refine ⟨[[[1, 0]]], ?_⟩
+    simp only [runOps, List.foldl, step, kernelConstraint, finalizeWeight, finalizeWeightTerm, monoStage,
+      projectMono, projectDim, clipNonneg, monoProj1, half, cummax, cummaxFrom, cumminBack, er,
+      List.any, id, Bool.or_false, if_true, List.map, List.zipWith, Option.isSome,
+      Bool.false_eq_true, if_false, eval, scaled, termProd, termFactors, interp1, interpWeights, clipIn,
+      dot, rprod, rsum, List.length]
+    norm_num [rprod, rsum, dot]
+    linarith
+  · exact absurd hr' hr
+
+/-! ### non-vacuity of the training theorem: two optimizer steps, the scale flips sign between them -/
+
+def exSteps : List (List Rat × List (List (List Rat)) × List Rat) :=
+  [([1/2], [[[1/4, 1]]], [1]), ([-3], [[[2, 1/2]]], [2])]
+
+example : RunValid 2 [true] (some 0) (some 1) { K := [[[7, -3]]], scale := [5] } (kerasRun kerasStepPerVar exSteps) := by
+  refine ⟨⟨⟨⟨rfl, ?_⟩, fun _ _ => ?_⟩, trivial⟩, ⟨⟨⟨rfl, ?_⟩, fun _ _ => ?_⟩, trivial⟩, trivial⟩
+  · intro k hk; simp only [List.mem_cons, List.not_mem_nil, or_false] at hk; subst hk; rfl
+  · decide +kernel
+  · intro k hk; simp only [List.mem_cons, List.not_mem_nil, or_false] at hk; subst hk; rfl
+  · decide +kernel
+
+/-- after step 1: kernel `[1/4, 1]`, scale `1/2`; after step 2 (scale update `-3`, clipped to `-1/2`):
+kernel `[1, 1/4]` — re-oriented for the new sign — and the output goes UP from `f(0) = 0` to `f(1) = 3/8`. -/
+example :
+    let fin := runOps [true] (some 0) (some 1) { K := [[[7, -3]]], scale := [5] } (kerasRun kerasStepPerVar exSteps)
+    fin.K = [[[1, 1/4]]] ∧ fin.scale = [-1/2] ∧
+    eval 2 false fin.K fin.scale (fixedBias (some 0) (some 1)) [0] = 0 ∧
+    eval 2 false fin.K fin.scale (fixedBias (some 0) (some 1)) [1] = 3/8 := by
   decide +kernel
 
 end Tfl.C07
